@@ -71,7 +71,7 @@ var (
 func (s *stubSession) rec(method string, args ...string) (int, error) {
 	c := stubCall{Step: simrt.Step(), Sess: s.id, Method: method, Args: args}
 	var err error
-	if s.b.failEach != nil && method != "Close" && method != "Poll" && method != "Idle" && s.b.failEach(method) {
+	if s.b.failEach != nil && method != "Close" && method != "Poll" && method != "Idle" && method != "Unselect" && s.b.failEach(method) {
 		c.Err = true
 		err = errStubNo
 	}
